@@ -72,11 +72,18 @@ type BlockCase struct {
 	Marker string          `json:"marker"` // "name" | "for"
 }
 
+type Combo struct {
+	Command string `json:"command"` // lint | ci | watch
+	State   string `json:"state"`   // noop | added | modified | moved
+}
+
 type Case struct {
 	HCL    string      `json:"hcl"`
 	Blocks []BlockCase `json:"blocks"`
 	Files  []FileCase  `json:"files"`
-	Class  string      `json:"class,omitempty"`
+	// Combos are the (command, entry state) pairs the case is evaluated under; empty = all twelve.
+	Combos []Combo `json:"combos,omitempty"`
+	Class  string  `json:"class,omitempty"`
 }
 
 // ---------------------------------------------------------------------------
@@ -291,9 +298,20 @@ var (
 )
 
 var (
-	commands = []config.ContextCommandVal{config.LintCommand, config.CICommand, config.WatchCommand}
-	states   = []discovery.ChangeType{discovery.Noop, discovery.Added, discovery.Modified, discovery.Moved}
+	commands    = []string{"lint", "ci", "watch"}
+	stateNames  = []string{"noop", "added", "modified", "moved"}
+	stateByName = map[string]discovery.ChangeType{"noop": discovery.Noop, "added": discovery.Added, "modified": discovery.Modified, "moved": discovery.Moved}
 )
+
+func allCombos() []Combo {
+	var out []Combo
+	for _, c := range commands {
+		for _, s := range stateNames {
+			out = append(out, Combo{c, s})
+		}
+	}
+	return out
+}
 
 type outcome struct {
 	selected, rejected int
@@ -379,7 +397,10 @@ func run(c Case, m bugModel) (out outcome, err error) {
 	for _, f := range c.Files {
 		files = append(files, lint.File{Name: f.Name, Content: []byte(f.Text)})
 	}
-	res := lint.Files(files, lint.Options{ConfigHCL: c.HCL, SkipChecks: true})
+	// Only the marker checks' names are enabled (what `pint --enabled rule/name --enabled rule/for` does):
+	// it leaves the selection of the marker checks untouched and spares pint the
+	// (quadratic) evaluation of every rule block for each of its built-in checks.
+	res := lint.Files(files, lint.Options{ConfigHCL: c.HCL, SkipChecks: true, Enabled: []string{checks.RuleNameCheckName, checks.RuleForCheckName}})
 	if res.Panicked() {
 		return out, fmt.Errorf("%w: panic while loading / discovering (%s): %v", errHarness, res.PanicAt, res.Panic)
 	}
@@ -440,9 +461,18 @@ func run(c Case, m bugModel) (out outcome, err error) {
 	}
 	pg := config.NewPrometheusGenerator(res.Cfg, prometheus.NewRegistry())
 	cfg := res.Cfg
-	for _, cmd := range commands {
+	combos := c.Combos
+	if len(combos) == 0 {
+		combos = allCombos()
+	}
+	for _, cb := range combos {
+		cmd := config.ContextCommandVal(cb.Command)
 		ctx := context.WithValue(context.Background(), config.CommandKey, cmd)
-		for _, st := range states {
+		st, ok := stateByName[cb.State]
+		if !ok || !(cmd == config.LintCommand || cmd == config.CICommand || cmd == config.WatchCommand) {
+			return out, fmt.Errorf("%w: unknown combo %+v", errHarness, cb)
+		}
+		{
 			for _, it := range items {
 				e := it.entry
 				e.State = st
@@ -662,6 +692,15 @@ func genCase(t *rapid.T, rec *vstat.Recorder, known map[string]string) Case {
 		d := genDoc(t, fmt.Sprintf("f%d", i), noOverride, &nover)
 		c.Files = append(c.Files, FileCase{Name: name, Doc: d, Text: pintcfg.RenderDoc(d)})
 	}
+	ncomb := rapid.IntRange(2, 4).Draw(t, "ncombos")
+	seenc := map[Combo]bool{}
+	for i := 0; i < ncomb; i++ {
+		cb := Combo{rapid.SampledFrom(commands).Draw(t, fmt.Sprintf("combo%d.cmd", i)), rapid.SampledFrom(stateNames).Draw(t, fmt.Sprintf("combo%d.state", i))}
+		if !seenc[cb] {
+			seenc[cb] = true
+			c.Combos = append(c.Combos, cb)
+		}
+	}
 	if nexcl > 0 {
 		rec.Count("excluded_by_construction:"+classTopAlt, int64(nexcl))
 	}
@@ -708,7 +747,7 @@ func classify(c Case) (string, bool, []string) {
 		ks = append(ks, k)
 	}
 	sort.Strings(ks)
-	return fmt.Sprintf("blocks=%d match=%d ignore=%d kinds=%d", len(c.Blocks), min(nm, 6), min(ni, 6), len(ks)), rich, ks
+	return fmt.Sprintf("match=%d ignore=%d kinds=%d", min(nm, 2), min(ni, 2), len(ks)), rich, ks
 }
 
 // ---------------------------------------------------------------------------
@@ -736,7 +775,7 @@ func TestPropSelect(t *testing.T) {
 			verdict = "none-selected"
 		}
 		c.Class = class + " " + verdict
-		key := c.HCL
+		key := fmt.Sprint(c.Combos) + c.HCL
 		for _, f := range c.Files {
 			key += "\x00" + f.Name + "\x00" + f.Text
 		}
